@@ -13,6 +13,7 @@ import (
 
 // bounds holds the shared state of the index-safety rule (C04 R1, C07 P1).
 type bounds struct {
+	lin *core.LinEnv
 	p        *core.Program
 	bce      *core.BCE
 	shr      map[*types.Var]map[*ssa.Function]bool
@@ -119,6 +120,14 @@ func (b *bounds) discharge(c *core.Ctx, site core.IndexSite) (bool, string) {
 		} else if how != "" {
 			why = append(why, how)
 		}
+	}
+	// (g) linear-relational argument: the index expression is compared with the length symbolically on every
+	// path to the site (core/lin.go; loads of a field are identified only when nothing in between can write it)
+	if b.lin == nil {
+		b.lin = newLinEnv(c.P)
+	}
+	if ok, _ := b.lin.ProveIndexSite(in); ok {
+		return true, "linear-relational: offsets compared with the length on every path"
 	}
 	return false, fmt.Sprint("not proven by the compiler and no local idiom applies ", why)
 }
